@@ -128,6 +128,11 @@ def rules_apply(run):
     for s in [s for s in A.sites if s.label == 'raise_event']:
         run.check(not guards(s.node, stop=A.send_loop), r, fi.short, 'each collected event is raised unconditionally', 'some collected events are not raised', s.node)
 
+    rules_trace_complete(run, r)
+
+
+def rules_trace_complete(run, r):
+    """Every applied micro step (with the events it sent) reaches the returned MacroStep."""
     # execute_once
     ei = run.fn('Interpreter.execute_once')
     E = ei.node
